@@ -39,6 +39,8 @@ def generate(gen, tier):
             t = mk_node(gen, kind, [sized_tree(gen, s) for s in pat])
         else:
             t = gen.tree(depth=rng.choice([2, 3]), width=rng.choice([3, 4]), leaf_p=0.0)
+        if rng.random() < 0.25:
+            t = gen.with_leafless(t, 0.4)
         cfg = gen.cfg(pred=rng.choice([0, 0, 0, 2, 6]))
         s = [A('structure'), cfg, t]
         nkids = len(children_of(t)) if not isinstance(t, Atom) else 0
